@@ -1469,6 +1469,21 @@ class ModuleScope(VhdlScope):
         "signed",
         "unsigned",
         "resize",
+        # predefined names used by the generated code
+        "boolean",
+        "integer",
+        "string",
+        "true",
+        "false",
+        "to_unsigned",
+        "to_signed",
+        "to_integer",
+        "shift_left",
+        "shift_right",
+        "rising_edge",
+        "falling_edge",
+        "work",
+        "cohdl_bool_to_std_logic",
     }
 
     def __init__(self, *, additional_reserved_names: set[str] = None):
